@@ -1005,8 +1005,6 @@ impl Context<'_> {
             | Type::Null
             | Type::String(..)
             | Type::OctetString(_)
-            | Type::Optional(_)
-            | Type::Default(..)
             | Type::Sequence(_)
             | Type::SequenceOf(..)
             | Type::Set(_)
@@ -1014,6 +1012,9 @@ impl Context<'_> {
             | Type::Enumerated(_)
             | Type::Choice(_)
             | Type::TypeReference(_, _) => Vec::default(),
+
+            // the attribute parser keeps OPTIONAL and the DEFAULT value as part of the type
+            Type::Optional(inner) | Type::Default(inner, _) => self.to_rust_constants(inner),
         }
     }
 
